@@ -367,31 +367,43 @@ def check(ctx, run):
     run.ob("R4", "addNewNode pushes the record at the head and keeps the others", an.site, got == [9, 1, 2], witness=got)
 
     # ---------------- R5 ----------------------------------------------------
+    from .shared import detector_fold
     am = [f for f in prog.fns(DET + "::allocMemory") if len(f.params) == 5][0]
-    run.analysed(am)
-    for p in enumerate_paths(am):
-        names = [(prog.callee_name(am, c) or "").split("::")[-1] for c in path_calls(prog, am, p)]
-        r = render(am, am.node(p.ret.get("value"))) if p.ret is not None and p.ret.get("value") is not None else None
-        ok = (names.count("storeLeakInformation") == 1 and r == "node->memory_") if r != "NULL" else names.count("storeLeakInformation") == 0
-        run.ob("R5", "allocMemory [%s]: one record iff a block is returned" % short(p.describe(am), 80), am.site, ok, witness={"returns": r, "calls": names})
     rm = prog.fn(DET + "::reallocMemory")
+    run.analysed(am)
     run.analysed(rm)
-    for p in enumerate_paths(rm):
-        names = [(prog.callee_name(rm, c) or "").split("::")[-1] for c in path_calls(prog, rm, p)]
-        mv = p.val().get(rm.params[1]["name"])
-        if mv is True:
-            nd = next((v for k, v in origin_val(rm, p).items() if "removeNode(" in k), None)
-            if nd is False:
-                ok = names.count("reportDeallocateNonAllocatedMemoryFailure") == 1 and "reallocateMemoryAndLeakInformation" not in names
-            else:
-                ok = names.count("removeNode") == 1 and names.count("reallocateMemoryAndLeakInformation") == 1 and names.index("removeNode") < names.index("reallocateMemoryAndLeakInformation")
-            run.ob("R5", "reallocMemory [%s]: the old record is removed before the new one is stored" % short(p.describe(rm), 80), rm.site, ok, witness=names)
-    ra = prog.fn(DET + "::reallocateMemoryAndLeakInformation")
-    for p in enumerate_paths(ra):
-        names = [(prog.callee_name(ra, c) or "").split("::")[-1] for c in path_calls(prog, ra, p)]
-        r = render(ra, ra.node(p.ret.get("value"))) if p.ret is not None and p.ret.get("value") is not None else None
-        ok = (names.count("storeLeakInformation") == 1) if r != "NULL" else names.count("storeLeakInformation") == 0
-        run.ob("R5", "realloc result [%s]: one record iff a block is returned" % short(p.describe(ra), 80), ra.site, ok, witness={"returns": r})
+
+    def pv(f, *vals):
+        return dict(zip([q["name"] for q in f.params], vals))
+    try:
+        for sep in (0, 1):
+            for mem, node in ((70000, 90000), (0, 90000), (70000, 0)):
+                if not sep and node == 0:
+                    continue
+                r, log, ev = detector_fold(prog, am, pv(am, 9000, 24, 111000, 77, sep), {"alloc": mem, "allocnode": node})
+                kinds = [k for k, a_ in log]
+                ok_case = mem != 0 and (node != 0 or not sep)
+                ok = (kinds.count("add") == 1 and r == mem) if ok_case else (kinds.count("add") == 0 and r == 0)
+                run.ob("R5", "allocMemory folded [%s record, allocator answers %s%s]: one record iff a block is returned" % ("separate" if sep else "inline", mem, ", record allocation fails" if sep and node == 0 else ""), am.site, ok,
+                       witness={"returns": r, "calls": kinds}, what="" if ok else "a block is returned without exactly one record, or a record is stored for a failed allocation")
+            for known, newmem in ((6000, 70000), (6000, 0), (0, 70000)):
+                r, log, ev = detector_fold(prog, rm, pv(rm, 9000, 50000, 24, 111000, 77, sep), {"remove": known, "realloc": newmem})
+                kinds = [k for k, a_ in log]
+                why = ""
+                if kinds[:1] != ["remove"] or log[0][1][-1] != 50000:
+                    why = "the old record is not removed first (%s)" % kinds[:3]
+                elif not known:
+                    if kinds.count("reportDeallocateNonAllocatedMemoryFailure") != 1 or "realloc" in kinds or "add" in kinds or r != 0:
+                        why = "an unknown block must give one non-allocated report and nothing else (%s -> %s)" % (kinds, r)
+                elif newmem:
+                    if kinds.count("add") != 1 or kinds.index("remove") > kinds.index("add") or r != newmem:
+                        why = "the old record is removed, then exactly one new record stored and the new block returned (%s -> %s)" % (kinds, r)
+                elif kinds.count("add") != 0 or r != 0:
+                    why = "a failed realloc stores a record or returns a block (%s -> %s)" % (kinds, r)
+                run.ob("R5", "reallocMemory folded [%s record, block %s, realloc answers %s]: the old record is removed before the new one is stored" % ("separate" if sep else "inline", "known" if known else "unknown", newmem), rm.site, not why,
+                       witness={"returns": r, "calls": kinds}, what=why)
+    except Unknown as u:
+        run.broke("C04.R5: allocMemory/reallocMemory cannot be folded: %s" % u)
 
     # ---------------- R6 ----------------------------------------------------
     stamping_rule(prog, run, "R6")
